@@ -328,15 +328,14 @@ def read_thrift_kind(kind, timeout):
         for b in B["outs"]:
             if kind == "stop":
                 if b.ctl != "break":
-                    res.addk("read_thrift.stop", "functional", REFUTED, {"ctl": str(b.ctl)}, 0.0, "trace", "a 0x00 byte must end the field loop")
+                    post(res, "read_thrift.stop", b.pc, z3.BoolVal(False), timeout, "a 0x00 byte must end the field loop" + " [this path ends with " + str(b.ctl) + ": it must be infeasible]", mf)
                     continue
                 n_body += 1
                 post(res, "read_thrift.stop", b.pc, z3.And(cy.loc(b, "inp") == loc0 + 1, z3.BoolVal(not b.ghost.get("dict_sets"))), timeout,
                      "a 0x00 byte ends the loop, cursor right after it, nothing stored", mf)
                 continue
             if b.ctl not in (None, "continue"):
-                res.addk(f"read_thrift.field_id{tag}", "functional", REFUTED, {"ctl": str(b.ctl)}, 0.0, "trace",
-                         "a well-formed field must not end the loop / raise")
+                post(res, f"read_thrift.field_id{tag}", b.pc, z3.BoolVal(False), timeout, "a well-formed field must not end the loop / raise" + " [this path ends with " + str(b.ctl) + ": it must be infeasible]", mf)
                 continue
             n_body += 1
             b.pc = list(b.pc) + list(b.axioms)
@@ -535,7 +534,7 @@ def read_list_kind(kind, form, timeout):
     for B in state.get("bodies", []):
         for b in B["outs"]:
             if b.ctl not in (None, "continue"):
-                res.addk(f"read_list.elem_value{tag}", "functional", REFUTED, {"ctl": str(b.ctl)}, 0.0, "trace", "a well-formed element must not raise")
+                post(res, f"read_list.elem_value{tag}", b.pc, z3.BoolVal(False), timeout, "a well-formed element must not raise" + " [this path ends with " + str(b.ctl) + ": it must be infeasible]", mf)
                 continue
             nb_ += 1
             b.pc = list(b.pc) + list(b.axioms)
@@ -738,7 +737,7 @@ def write_list_kind(kind, form, timeout):
     for B in state.get("bodies", []):
         for b in B["outs"]:
             if b.ctl not in (None, "continue"):
-                res.addk(f"write_list.elem_bytes{tag}", "functional", REFUTED, {"ctl": str(b.ctl)}, 0.0, "trace", "an element must not end the loop")
+                post(res, f"write_list.elem_bytes{tag}", b.pc, z3.BoolVal(False), timeout, "an element must not end the loop" + " [this path ends with " + str(b.ctl) + ": it must be infeasible]", mf)
                 continue
             nb_ += 1
             b.pc = list(b.pc) + list(b.axioms)
